@@ -1,5 +1,6 @@
 import SJ.Props.C10
 import SJ.Props.Typed
+import SJ.Props.StreamTyped
 #print axioms SJ.Props.C10.prefix_fails_only_at_end
 #print axioms SJ.Props.C10.c10_prefix_ignored
 #print axioms SJ.Props.Typed.c10_typed_core
@@ -10,3 +11,5 @@ import SJ.Props.Typed
 #print axioms SJ.Props.C10.c10_prefix_value_ap
 #print axioms SJ.Props.C10.c10_stream_prefix_partial
 #print axioms SJ.Props.C10.c10_stream_prefix_ignored
+#print axioms SJ.Props.StreamTyped.c10_typed_stream_prefix_partial
+#print axioms SJ.Props.StreamTyped.c10_typed_stream_prefix
